@@ -145,7 +145,7 @@ PropValueOk(p) ==
     [] p.id = 11 -> p.n >= 1 /\ p.n <= VarintMax
     [] p.id = 35 -> p.n >= 1
     [] p.id = 33 -> p.n >= 1
-    [] p.id = 39 -> p.n >= 1
+    [] p.id = 39 -> p.s # << 0, 0, 0, 0 >>
     [] OTHER -> TRUE
 
 \* one property at index i of bs (bounded by end index e, inclusive)
@@ -160,7 +160,8 @@ PropAt(bs, i, e) ==
        IF j + 1 <= e THEN [st |-> "ok", p |-> Prop(id, U16(bs, j), << >>, << >>), n |-> idv.n + 2]
        ELSE [st |-> "bad"]
     ELSE IF id \in PU32 THEN
-       IF j + 3 <= e THEN [st |-> "ok", p |-> Prop(id, U32(bs, j), << >>, << >>), n |-> idv.n + 4]
+       \* four-byte values stay as bytes in `s` (TLC integers are 32-bit signed)
+       IF j + 3 <= e THEN [st |-> "ok", p |-> Prop(id, 0, Sub(bs, j, 4), << >>), n |-> idv.n + 4]
        ELSE [st |-> "bad"]
     ELSE IF id \in PVarint THEN
        LET v == Varint(bs, j) IN
@@ -220,7 +221,7 @@ EncProp(p) ==
   EncVarint(p.id) \o
   (IF p.id \in PByte THEN << p.n >>
    ELSE IF p.id \in PU16 THEN EncU16(p.n)
-   ELSE IF p.id \in PU32 THEN EncU32(p.n)
+   ELSE IF p.id \in PU32 THEN p.s
    ELSE IF p.id \in PVarint THEN EncVarint(p.n)
    ELSE IF p.id \in PPair THEN EncLp(p.s) \o EncLp(p.t)
    ELSE EncLp(p.s))
